@@ -184,7 +184,7 @@ def w_in_playback(props=None, case=None):
     paths = norm(ex.block(node.body, st)); U = 'W_in.playback'
     for s, oc in paths:
         b = body_calls(s); hk = hooks(s)
-        obl.append(Obl('C02/%s/no_cassette_or_recording_writes' % U, 'C02', s, no_cassette_events(s), oc))
+        obl.append(Obl('C02/%s/no_cassette_or_recording_writes' % U, ('C02', 'C11'), s, no_cassette_events(s), oc))      # C11: replay never rewrites the recording it plays
         obl.append(Obl('C09/%s/flag_restored' % U, ('C09', 'C05', 'C02', 'C01', 'C03'), s, flag_restored(s, selfv), oc))
         # frame: the decorator's configuration (its fallback alias list) is the same for every call -- it is never modified
         obl.append(Obl('C02/%s/decorator_configuration_not_modified' % U, ('C02', 'C01', 'C09'), s,
@@ -308,6 +308,12 @@ def w_in_recording(props=None, case=None):
         elif oc[0] == 'raise':
             obl.append(Obl('C05/%s/captured_or_discarded_or_interrupt' % U, 'C05', s, z3.Or(written, discarded, z3.Not(is_exc(oc[1]))), oc))
         obl.append(Obl('C05/%s/at_most_one_entry_written' % U, 'C05', s, z3.BoolVal(len(writes) <= 1), oc))
+        if (case or {}).get('fb') == 'callable' and writes:
+            # C05 "every saved recording ... replays on unchanged code without a missing-key error": the key-building phase is the same while
+            # recording as while replaying -- a call is captured only after EVERYTHING the replay will evaluate to look it up (the fallback-alias
+            # callable included) has been evaluated once without failing; a failure there is a capture fault (recording discarded)
+            obl.append(Obl('C05/%s/captured_only_after_the_fallback_aliases_were_resolved' % U, ('C05', 'C01'), s,
+                           z3.BoolVal(len([t for t in hooks(s, 'fallback_aliases') if t['outcome'][0] == 'ret']) == 1), oc))
         b = body_calls(s)
         if len(writes) == 1 and len(b) == 1:
             ev = writes[0]; out = b[0]['outcome']; env = ev[3]
@@ -317,7 +323,7 @@ def w_in_recording(props=None, case=None):
                 stored = s.dget(env, S('value')); src = prep[0]['outcome'][1] if prep else out[1]
                 cl = z3.And(s.dhas(env, S('value')), z3.Not(s.dhas(env, S('exception'))),
                             z3.Or(stored == src, *[z3.And(stored == c[1], c[2] == src) for c in copies]))
-                obl.append(Obl('C01/%s/record/envelope_holds_value_or_prepared_value' % U, 'C01', s, cl, oc))
+                obl.append(Obl('C01/%s/record/envelope_holds_value_or_prepared_value' % U, ('C01', 'C20'), s, cl, oc))
                 # C11: with copy-on-interception the stored value is a COPY of what is recorded (the prepared form when there is a handler),
                 # unless that copy could not be made
                 cflag = truthy(s.rd(s.g['old']['params'], 'copy_data_on_intercepion')) if s.g['old'].get('params') is not None else None
@@ -633,6 +639,14 @@ def w_op_recording(props=None, case=None):
             pa = s.g.get('post_added')
             obl.append(Obl('C18/%s/no_key_beyond_the_frameworks_and_this_runs_extracted_metadata' % U, ('C18', 'C09'), s,
                            z3.Implies(z3.And(*([k_ != x for x in fwk] + ([z3.Not(pa[k_])] if pa is not None else []))), z3.Not(d_[k_])), oc))
+            # "a non-negative duration consistent with wall time", whatever the termination mode: it is the clock read when the run is finalised
+            # minus the clock read when it started (both reads of THIS call)
+            reads_ = s.g.get('clock_reads', [])
+            obl.append(Obl('C18/%s/duration_is_the_wall_time_of_this_run' % U, 'C18', s,
+                           z3.And(is_num(m[key('DURATION')]), z3.Or(*[num(m[key('DURATION')]) == b_ - a_ for i_, a_ in enumerate(reads_) for b_ in reads_[i_ + 1:]])) if len(reads_) >= 2 else z3.BoolVal(False), oc))
+            # the user's extractor describes THIS call: it is given the call's positional and keyword arguments
+            for t_ in hooks(s, 'metadata_extractor'):
+                obl.append(Obl('C18/%s/extractor_is_given_the_calls_own_arguments' % U, 'C18', s, same_args(s, t_, fr), oc))
             obl.append(Obl('C18/%s/duration_nonnegative' % U, 'C18', s, z3.And(is_num(m[key('DURATION')]), num(m[key('DURATION')]) >= 0), oc))
             obl.append(Obl('C18/%s/recorded_at_present' % U, 'C18', s, z3.And(d_[key('RECORDED_AT')], Val.is_s(m[key('RECORDED_AT')])), oc))
             a0 = s.g['old']['seq'][Val.addr(fr['args'])][0]
